@@ -35,8 +35,12 @@ fn main() {
             let mut out = String::new();
             for e in t[2].split(',') {
                 let (k, h) = e.split_once(':').unwrap();
-                let p = String::from_utf8(unhex(h)).unwrap();
-                out.push(if fe.should_include(Path::new(&p), k == "d") { '1' } else { '0' });
+                // the bytes as they are: names that are not valid UTF-8 included
+                let p = {
+                    use std::os::unix::ffi::OsStringExt;
+                    std::path::PathBuf::from(std::ffi::OsString::from_vec(unhex(h)))
+                };
+                out.push(if fe.should_include(&p, k == "d") { '1' } else { '0' });
             }
             out
         }
@@ -51,7 +55,10 @@ fn main() {
                             format!(
                                 "{}:{}:{}",
                                 if e.is_dir { "d" } else if e.is_symlink { "l" } else { "f" },
-                                hex(e.relative_path.to_string_lossy().as_bytes()),
+                                hex({
+                                    use std::os::unix::ffi::OsStrExt;
+                                    e.relative_path.as_os_str().as_bytes()
+                                }),
                                 e.size
                             )
                         })
